@@ -54,20 +54,21 @@ def main():
     tier = 'quick'
     if '--tier' in args:
         tier = args[args.index('--tier') + 1]
-    ids = [a for a in args if re.fullmatch(r'C\d\d', a)] or sorted(x for x in os.listdir(os.path.join(VERIF, 'seeded')) if re.fullmatch(r'C\d\d', x))
+    ids = [a for a in args if re.fullmatch(r'C\d\d[a-z]?', a)] or sorted(x for x in os.listdir(os.path.join(VERIF, 'seeded')) if re.fullmatch(r'C\d\d[a-z]?', x))
     if not clean():
         print('/repo is not clean')
         return 2
     keep = tempfile.mkdtemp(prefix='verif-evidence-keep-', dir='/var/tmp')
     shutil.copytree(os.path.join(VERIF, 'evidence'), os.path.join(keep, 'evidence'))
     try:
-        for pid in ids:
-            d = os.path.join(VERIF, 'seeded', pid)
+        for name in ids:
+            pid = name[:3]
+            d = os.path.join(VERIF, 'seeded', name)
             meta = json.load(open(os.path.join(d, 'meta.json')))
             rc0, _ = demo(d)
             rc, out = sh(['git', '-C', REPO, 'apply', os.path.join(d, 'patch.diff')])
             if rc != 0:
-                print(pid, 'patch does not apply:', out[:200])
+                print(name, 'patch does not apply:', out[:200])
                 continue
             try:
                 rc1, out1 = demo(d)
@@ -83,11 +84,11 @@ def main():
                 for c in [pid] + [x for x in meta.get('cross_checks', []) if x != pid]:
                     res['%s:%s' % (c, tier)] = run_check(c, tier)
                     r = res['%s:%s' % (c, tier)]
-                    print('%s -> check %s (%s): exit %d, %d violation line(s), %d without input  %s' % (pid, c, tier, r['exit'], r['violations'], r['without_input'], r['first'][:140]), flush=True)
+                    print('%s -> check %s (%s): exit %d, %d violation line(s), %d without input  %s' % (name, c, tier, r['exit'], r['violations'], r['without_input'], r['first'][:140]), flush=True)
             finally:
                 sh(['git', '-C', REPO, 'checkout', '--', '.'])
             meta['ran'] = ('git -C /repo apply seeded/%s/patch.diff; PYTHONPATH=/repo/src python seeded/%s/demo.py; %s./check <id> for the '
-                           'property and the cross-checks; git -C /repo checkout -- .  (harness/seeded_run.py)' % (pid, pid, 'harness/run_baseline.sh; ' if baseline else ''))
+                           'property and the cross-checks; git -C /repo checkout -- .  (harness/seeded_run.py)' % (name, name, 'harness/run_baseline.sh; ' if baseline else ''))
             json.dump(meta, open(os.path.join(d, 'meta.json'), 'w'), indent=1, ensure_ascii=False)
     finally:
         sh(['git', '-C', REPO, 'checkout', '--', '.'])
@@ -100,8 +101,9 @@ def main():
 
 def write_results():
     rows = []
-    for pid in sorted(x for x in os.listdir(os.path.join(VERIF, 'seeded')) if re.fullmatch(r'C\d\d', x)):
-        m = json.load(open(os.path.join(VERIF, 'seeded', pid, 'meta.json')))
+    for name in sorted(x for x in os.listdir(os.path.join(VERIF, 'seeded')) if re.fullmatch(r'C\d\d[a-z]?', x)):
+        pid = name[:3]
+        m = json.load(open(os.path.join(VERIF, 'seeded', name, 'meta.json')))
         c = m.get('confirmed', {})
         own = m.get('checks', {}).get(pid + ':quick', {})
         others = []
@@ -110,7 +112,7 @@ def write_results():
             if cid != pid and tier == 'quick':
                 others.append('%s %s' % (cid, 'quiet' if r['exit'] == 0 else ('VIOLATION' + (' (no input)' if r['without_input'] == r['violations'] else ''))))
         rows.append('| %s | %s | %s / %s | %s | %s | %s | %s |' % (
-            pid, m['where'].replace('|', '/'), c.get('demo_exit_clean_tree', '?'), c.get('demo_exit_with_change', '?'),
+            name, m['where'].replace('|', '/'), c.get('demo_exit_clean_tree', '?'), c.get('demo_exit_with_change', '?'),
             (c.get('pinned_suite_with_change', '') or 'not re-run').replace('baseline stable_pass: ', ''),
             'caught, concrete replay' if own.get('exit') == 1 and own.get('without_input', 0) < own.get('violations', 0)
             else ('caught, no-failing-input-found' if own.get('exit') == 1 else 'MISSED' if own else 'not run'),
